@@ -33,6 +33,12 @@ CLAIMED["C14"] = dict(
     note="Trusted: the list of aggregate files that may legitimately change when a type is added (index.mjs/index.d.ts, lib.g.dart, <lib>_ext.cpp).",
     ref="DESIGN.md §2 C14")
 
+CLAIMED["C09"] = dict(
+    engine="P", technique="grammar-based program generation (Hypothesis) with compiler oracles (rustc + real proc macro, gcc, g++, node) and structural reduction",
+    text="Generated accepted programs (type cycles, multi-module, keyword identifiers, abi_rename/rename/namespace attributes) plus the repository's own bridges: the macro expansion must type-check, every C header must compile alone as C11, every C++ header alone as C++17 (thorough: and C++20; quick: C++20 for the all-headers TU), all headers in a random order in one TU, and every JS module must link under Node with a stub wasm module. Exploration.",
+    note="Trusted: gcc/g++ 12, node 20 and rustc as the definition of 'builds'. Known findings are steered around by construction (identifier pools) and re-confirmed by probes.",
+    ref="DESIGN.md §2 C09")
+
 TODO_REASON = "check not built yet in this revision of /verif (planned, see DESIGN.md §2); not claimed until it is silent on the unchanged tree and kills its mutants"
 
 ALL = ["C%02d" % i for i in range(1, 18)]
